@@ -29,15 +29,19 @@ theorem bn_bin_decode_valid (hw : 0 < cfg.w) (h8 : 8 ∣ cfg.w) (b : List UInt8)
   ⟨(bnReadBin_spec cfg hw h8 b x h).1, (bnReadBin_spec cfg hw h8 b x h).2, bnWriteBin_readBin cfg hw h8 b x h⟩
 
 /-- R4 (text): every radix 2..64 is positional notation, and reading back returns the integer -/
+-- STATEMENT CHANGED: the read-back conjunct now assumes `radix < cfg.B` (the radix and the digit values
+-- are handed to bn_mul_dig / bn_add_dig as single digits); without it the claim is false for tiny words,
+-- e.g. w = 1, radix = 10, a = 5 reads back as 3 (see the `example` in Lemmas/BnConv.lean). It holds for
+-- every real configuration (radix ≤ 64 < 2^w for w ≥ 8).
 theorem bn_str_positional (hw : 0 < cfg.w) (a : Bn) (ha : a.WF cfg.B) (radix len : Nat) (hr : 2 ≤ radix ∧ radix ≤ 64)
     (s : String) (h : bnWriteStr cfg len a radix = .ok s) :
     (∃ ds : List Nat, (∀ d ∈ ds, d < radix) ∧ (ds.head? ≠ some 0 ∨ ds = [0]) ∧ ds ≠ [] ∧
       posVal radix ds = (a.toInt cfg.B).natAbs ∧
       s.toList = (if a.toInt cfg.B < 0 then ['-'] else []) ++ ds.map convChar) ∧
     bnSizeStr cfg a radix = some (s.toList.length + 1) ∧
-    (∀ x, bnReadStr cfg s radix = some x → x = a) :=
+    (radix < cfg.B → ∀ x, bnReadStr cfg s radix = some x → x = a) :=
   ⟨bnWriteStr_spec cfg hw a ha radix len hr s h, bnSizeStr_spec cfg hw a ha radix len hr s h,
-   fun x hx => bnReadStr_writeStr cfg hw a ha radix len hr s h x hx⟩
+   fun hrB x hx => bnReadStr_writeStr cfg hw a ha radix len hr hrB s h x hx⟩
 
 theorem bn_str_errors (a : Bn) (radix len : Nat) :
     (radix < 2 ∨ radix > 64 → bnWriteStr cfg len a radix = .error .noValid) ∧
